@@ -34,7 +34,7 @@ def check_polynomial_detrend(ctx, rule="R1-least-squares-polynomial-removed"):
     repo = ctx.repo
     key = f"{DSP}::polynomial_detrend"; fn = repo.get(key); where = repo.where(key, fn); ctx.analysed(key)
     KIND["n"] = "nat"; ARRAY_KIND["x"] = "real"
-    for order in (0, 1, 2, 3, 5):
+    for order in ((0, 1, 2, 3, 4, 5, 6, 7, 8) if getattr(ctx, 'tier', 'quick') == 'thorough' else (0, 1, 2, 3, 5)):
         I = Interp(repo)
         fits = []
 
